@@ -33,6 +33,7 @@ const (
 type absEnv struct {
 	vals  map[string]absVal // access path -> nil-ness / truth
 	conds map[string]absVal // substring of a condition expression -> truth
+	atoms []func(v ssa.Value) absVal // semantic atoms: evaluate a condition from the case assumptions, or absUnknown
 }
 
 type absTrace struct {
@@ -86,6 +87,11 @@ func (e *absEnv) evalCond(v ssa.Value) absVal {
 				}
 				return absFalse
 			}
+		}
+	}
+	for _, at := range e.atoms {
+		if r := at(v); r != absUnknown {
+			return r
 		}
 	}
 	ce := condExpr(v)
@@ -238,7 +244,21 @@ func c12(c *Ctx) {
 						if okIP && okIn {
 							ipp := pathOf(ip)
 							lk, isLk := ins.(*ssa.Lookup)
-							okSend = strings.HasPrefix(ipp, "ips[") && strings.Contains(ipp, "rangeindex") && isLk && lk.Index == ip
+							_ = ipp
+							// ip is an element of the batch parameter selected by the loop counter
+							okElem := false
+							if ld2, isLd := ip.(*ssa.UnOp); isLd && ld2.Op == token.MUL {
+								if ia, isIA := ld2.X.(*ssa.IndexAddr); isIA && paramIndex(ld, ia.X) == 2 {
+									if ph, isPhi := ia.Index.(*ssa.Phi); isPhi && isLoopHead(ph.Block()) {
+										okElem = true
+									} else if b := asBinOp(ia.Index, token.ADD); b != nil {
+										if ph, isPhi := b.X.(*ssa.Phi); isPhi && isLoopHead(ph.Block()) {
+											okElem = true
+										}
+									}
+								}
+							}
+							okSend = okElem && isLk && lk.Index == ip
 							if isLk {
 								if ex, ok := lk.X.(*ssa.Extract); !ok || ex.Tuple != ssa.Value(inst) || ex.Index != 0 {
 									okSend = false
@@ -273,6 +293,7 @@ func c12(c *Ctx) {
 			}
 		})
 		okApp := false
+		var batchApp *ssa.Call
 		if recvSel != nil {
 			for k, st := range recvSel.States {
 				if st.Send == nil && strings.HasSuffix(pathOf(st.Chan), ".ipSource") {
@@ -283,6 +304,7 @@ func c12(c *Ctx) {
 								for _, el := range varargElems(cl.Call.Args[1]) {
 									if ex, ok := el.(*ssa.Extract); ok && ex.Tuple == ssa.Value(recvSel) {
 										okApp = true
+										batchApp = cl
 									}
 								}
 							}
@@ -311,7 +333,34 @@ func c12(c *Ctx) {
 		})
 		r.Check("run:batch-reset-only-after-lookup", okReset, lr.Pos(), "ips = ips[:0] only after doLookup(ctx, ips)")
 		if look != nil {
-			r.Check("run:looks-up-the-batch", strings.Contains(pathOf(look.(ssa.CallInstruction).Common().Args[2]), "ips"), look.Pos(), "doLookup receives the accumulated batch")
+			// the slice handed to doLookup is the variable the received sources are appended to
+			okBatch := false
+			if batchApp != nil {
+				arg := look.(ssa.CallInstruction).Common().Args[2]
+				var derives func(v ssa.Value, d int) bool
+				seenB := map[ssa.Value]bool{}
+				derives = func(v ssa.Value, d int) bool {
+					if d > 6 || seenB[v] {
+						return false
+					}
+					seenB[v] = true
+					if v == ssa.Value(batchApp) {
+						return true
+					}
+					if ph, ok := v.(*ssa.Phi); ok {
+						for _, e := range ph.Edges {
+							if derives(e, d+1) {
+								return true
+							}
+						}
+					}
+					return false
+				}
+				okBatch = derives(arg, 0)
+				seenB = map[ssa.Value]bool{}
+				okBatch = okBatch && derives(batchApp.Call.Args[0], 0)
+			}
+			r.Check("run:looks-up-the-batch", okBatch, look.Pos(), "doLookup receives the accumulated batch (the slice the received sources are appended to)")
 		}
 		// the limiter is charged once per provider call
 		nw := 0
@@ -494,8 +543,51 @@ func c12(c *Ctx) {
 						}
 						return absFalse
 					}
-					env.conds[".lastAccess("] = tv(idle)
-					env.conds["Time).After("] = tv(exp)
+					neg := func(a absVal) absVal {
+						if a == absTrue {
+							return absFalse
+						}
+						return absTrue
+					}
+					// idle  <=>  (now - lastAccess()) > idle period, in any mirrored / negated spelling with the same boundary
+					env.atoms = append(env.atoms, func(v ssa.Value) absVal {
+						b, ok := v.(*ssa.BinOp)
+						if !ok {
+							return absUnknown
+						}
+						isAge := func(x ssa.Value) bool { return strings.Contains(condExpr(x), "lastAccess") }
+						op := b.Op
+						switch {
+						case isAge(b.X) && !isAge(b.Y):
+						case isAge(b.Y) && !isAge(b.X):
+							op = mirrorOp(op)
+						default:
+							return absUnknown
+						}
+						switch op {
+						case token.GTR: // age > limit
+							return tv(idle)
+						case token.LEQ: // age <= limit
+							return neg(tv(idle))
+						}
+						return absUnknown // >= / < move the boundary: not the documented test
+					})
+					// expired  <=>  t.After(entry.expires)  <=>  entry.expires.Before(t)
+					env.atoms = append(env.atoms, func(v ssa.Value) absVal {
+						cl, ok := v.(*ssa.Call)
+						if !ok || len(cl.Call.Args) != 2 {
+							return absUnknown
+						}
+						isExp := func(x ssa.Value) bool { return strings.HasSuffix(pathOf(x), ".expires") }
+						a0, a1 := cl.Call.Args[0], cl.Call.Args[1]
+						switch {
+						case isCall(cl, "(time.Time).After") && !isExp(a0) && isExp(a1):
+							return tv(exp)
+						case isCall(cl, "(time.Time).Before") && isExp(a0) && !isExp(a1):
+							return tv(exp)
+						}
+						return absUnknown
+					})
 					tr := walkLoopBodyOnce(dr, env, "CachedCloudProvider", ins)
 					if tr.Undecided != "" {
 						r.Fail("doRefresh:"+name, dr.Pos(), "abstract evaluation undecided: "+tr.Undecided)
